@@ -53,7 +53,7 @@ CHECKS = {
    technique='TLA+ ghost-variable spec model-checked by TLC + TLC trace validation'),
  'C10': dict(engine='layout', design='5 C10, 4.10',
    text='The naming loop of reset_variables is a TLA+ machine (MC_Relabel): TLC checks bijection, first-free-candidate choice, agreement with the functional plan, the pigeonhole progress measure and termination for every format with an index field; recorded reset_variables executions on corpus and random trees x formats are judged by TLC: the observed map is a bijection, applied at every definition and (aligned) reference and nowhere else, and interpretation commutes with renaming. In the thorough tier Apalache discharges an inductive invariant of the naming loop (Apa_Relabel: injective for any names and any number of candidates tried, trees of up to 8 nodes).',
-   note='F15 (formats without index field never return when two nodes format alike) is an open known finding, detected by a 1-2 s timeout and the specification predicate; the documented prefix (first alphabetic character of the concept, lower-cased, or _) gates, the choice of the index is drift',
+   note='F15 (formats without index field never return when two nodes format alike) is an open known finding, detected by a 1-2 s timeout and the specification predicate; the documented prefix (first alphabetic character of the concept, lower-cased, or _) and the depth-first first-free choice of the index gate',
    technique='TLA+ machine of the naming loop model-checked by TLC + TLC trace validation'),
  'C13': dict(engine='model', design='5 C13, 4.4',
    text='TLC checks the role algebra (colon, inversions removed in pairs, normalisation last, defined roles never inverted, involution and flip on inversion-canonical roles, triple laws, idempotence exactly for closed normalisation tables) on every model table over a small role universe x every role base x k inversions (MC_Model); the (table, role) pairs exported by TLC and roles of the default, AMR, no-op, MiniAMR and custom models are run through the real Model methods and canonicalize_roles, and TLC judges every recorded value against the specification functions and the laws. The triple laws are judged on triples whose ends are variables, quoted strings, numbers, None and self-loops.',
